@@ -329,6 +329,7 @@ func runSeq(w *world, c replyCase, timeout time.Duration) {
 }
 
 func replyEngine(args []string) error {
+	dottedLabels = true
 	c := parseCommon("reply", args)
 	port := c.fs.Lookup("seed") // placeholder to keep flag set used
 	_ = port
